@@ -10,7 +10,8 @@ V_repeat(e) ==
     LET m == Repeat(e.x, e.y, e.r)
     IN Fail(e.outcome # "ok" \/ ~PairOK(e.outx, e.outy, m, Tol), "C12.value") \cup
        Fail(e.w_outcome # "ok" \/ ~PairOK(e.wx, e.wy, m, Tol), "C12.weaver") \cup
-       Fail(e.w_outcome # "ok" \/ ~PairOK(e.wrx, e.wry, m, Tol), "C08.repeat_reference") \cup
+       \* (after a reshaping history the reference is no longer the working series: judged by C08's own histories)
+       Fail(~e.reshaped /\ (e.w_outcome # "ok" \/ ~PairOK(e.wrx, e.wry, m, Tol)), "C08.repeat_reference") \cup
        Fail(e.outcome = "ok" /\ (Len(e.outx) # e.r * Len(e.x) \/ ~FStrictlyIncreasing(e.outx)), "C12.shape")
 
 \* recorded pair: repeat(repeat(s, a), b) against repeat(s, a*b), and against the model
